@@ -18,9 +18,11 @@ KillCells == {[m |-> "kill", sender |-> s] : s \in KillSenders}
 ExecRows    == {r \in Rows : r.exec}
 ProdsOf(r)  == IF r.pk = "vault" /\ r.px = IO THEN {"oracle", "fixed"} ELSE {"na"}
 RolesOf(r)  == IF r.pk \in {"vault", "borrow"} THEN IO ELSE IF r.pk \in {"lend", "stable"} THEN I ELSE {}
-CtlCells  == {[m |-> "ctl", h |-> r.id, app |-> r.app, prod |-> p, breaker |-> b, esm |-> e, off |-> o] :
-                 r \in ExecRows, p \in Products, b \in BOOLEAN, e \in EsmStates, o \in SUBSET IO}
-CtlCellsOK == {c \in CtlCells : c.prod \in ProdsOf(Row(c.h)) /\ c.off \subseteq RolesOf(Row(c.h))}
+(* pm = how the price is unavailable: the TWA record is flagged inactive, or there is no record at all *)
+PriceModes == {"na", "inactive", "missing"}
+CtlCells  == {[m |-> "ctl", h |-> r.id, app |-> r.app, prod |-> p, breaker |-> b, esm |-> e, off |-> o, pm |-> pm] :
+                 r \in ExecRows, p \in Products, b \in BOOLEAN, e \in EsmStates, o \in SUBSET IO, pm \in PriceModes}
+CtlCellsOK == {c \in CtlCells : c.prod \in ProdsOf(Row(c.h)) /\ c.off \subseteq RolesOf(Row(c.h)) /\ (c.pm = "na" <=> c.off = {})}
 HookCells == {[m |-> "hook", hook |-> h, app |-> HookApp(h), breaker |-> b, esm |-> e] : h \in Hooks, b \in BOOLEAN, e \in EsmStates}
 
 CtlOf(c) == Ctl(c.breaker, c.esm, c.off)
